@@ -267,6 +267,13 @@ def build(cfg) -> Built:
             if name.startswith(("RT", "BDM")) or (len(shape) == 1 and shape[0] == gdim and name.startswith("v")):
                 return ufl.div(w)
             raise Inapplicable("div/curl need a vector-valued element")
+        if op == "csum":
+            # sum of all components: couples every component (and every sub-element of a mixed element) with every other one
+            if len(shape) == 0:
+                raise Inapplicable("component sum needs a non-scalar element")
+            import itertools as _it
+
+            return sum(w[idx] for idx in _it.product(*[range(n) for n in shape]))
         if op == "comp":
             if len(shape) == 0:
                 raise Inapplicable("component pick needs a non-scalar element")
